@@ -32,6 +32,22 @@ if TYPE_CHECKING:
 
 RE_CANONICAL_INT = re.compile(r"(?:0|-?[1-9][0-9]*)\Z", re.ASCII)
 
+# A backslash and the character after it, or an octal escape of three digits.
+RE_ESCAPE = re.compile(r"\\(?:[0-7]{3}|.)", re.DOTALL)
+
+_ESCAPES = frozenset("\\'\"abfnrtvxuUN01234567\n")
+
+
+def _quiet_escape(match: "re.Match[str]") -> str:
+    # The "unicode-escape" codec keeps a sequence it does not know (`\g`) as it
+    # is and reads an octal escape above `\377` as that code point, but warns
+    # about both (DeprecationWarning). Spell them so it has nothing to warn
+    # about: callers' text should not make the library emit warnings.
+    seq = match.group()
+    if len(seq) == 4:
+        return seq if seq[1] < "4" else f"\\u{int(seq[1:], 8):04x}"
+    return seq if seq[1] in _ESCAPES else "\\" + seq
+
 
 class _Undefined:
     def __str__(self) -> str:
@@ -273,7 +289,9 @@ class JSONPointer:
                 codecs.decode(
                     # Keep non-ASCII characters intact: the codec reads bytes
                     # as Latin-1, so spell everything else as an escape first.
-                    s.replace("\\/", "/").encode("latin-1", "backslashreplace"),
+                    RE_ESCAPE.sub(_quiet_escape, s.replace("\\/", "/")).encode(
+                        "latin-1", "backslashreplace"
+                    ),
                     "unicode-escape",
                 )
                 .encode("utf-16", "surrogatepass")
